@@ -651,7 +651,7 @@ V("C05", "orthogonal-from-lengths", DPY, "        orthogonal = np.allclose(np.ar
 V("C05", "wrapper-branches-swapped", GPYX, "    if orthogonal:\n        dist_mic(&xyz[0,0,0], &pairs[0,0], &box_matrix[0,0,0], &out[0,0], NULL, n_frames, n_atoms, n_pairs)\n    else:\n        dist_mic_triclinic(&xyz[0,0,0], &pairs[0,0], &box_matrix[0,0,0], &out[0,0], NULL, n_frames, n_atoms, n_pairs)",
   "    if not orthogonal:\n        dist_mic(&xyz[0,0,0], &pairs[0,0], &box_matrix[0,0,0], &out[0,0], NULL, n_frames, n_atoms, n_pairs)\n    else:\n        dist_mic_triclinic(&xyz[0,0,0], &pairs[0,0], &box_matrix[0,0,0], &out[0,0], NULL, n_frames, n_atoms, n_pairs)", "C05-R1", "_dist_mic")
 V("C05", "wrapper-n_atoms-n_pairs-swapped", GPYX, "        dist_mic_triclinic(&xyz[0,0,0], &pairs[0,0], &box_matrix[0,0,0], &out[0,0], NULL, n_frames, n_atoms, n_pairs)", "        dist_mic_triclinic(&xyz[0,0,0], &pairs[0,0], &box_matrix[0,0,0], &out[0,0], NULL, n_frames, n_pairs, n_atoms)", "C05-R5", "_dist_mic")
-V("C05", "kernel-sign-flipped", DKH, "            fvec4 r12 = pos2-pos1;\n#ifdef COMPILE_WITH_PERIODIC_BOUNDARY_CONDITIONS\n            r12 -= round(r12*inv_box_size)*box_size;", "            fvec4 r12 = pos1-pos2;\n#ifdef COMPILE_WITH_PERIODIC_BOUNDARY_CONDITIONS\n            r12 -= round(r12*inv_box_size)*box_size;", "C05-R2", count=2)
+V("C05", "kernel-sign-flipped", DKH, "            fvec4 r12 = pos2-pos1;\n#ifdef COMPILE_WITH_PERIODIC_BOUNDARY_CONDITIONS\n            r12 -= round(r12*inv_box_size)*box_size;", "            fvec4 r12 = pos1-pos2;\n#ifdef COMPILE_WITH_PERIODIC_BOUNDARY_CONDITIONS\n            r12 -= round(r12*inv_box_size)*box_size;", "C05-R4", count=2)
 V("C05", "triclinic_t-z-loop-short", GEOC, """            int offset2 = time_offset2 + pair_offset2;
             fvec4 pos1(xyz[offset1], xyz[offset1+1], xyz[offset1+2], 0);
             fvec4 pos2(xyz[offset2], xyz[offset2+1], xyz[offset2+2], 0);
@@ -693,7 +693,7 @@ V("C05", "reference-wrap-order", DPY, "            r12 = xyz[i, b, :] - xyz[i, a
 V("C05", "reference-loop-0-2", DPY, "                for ii in range(-1, 2):\n                    v1 = bv1 * ii\n                    for jj in range(-1, 2):\n                        v12 = bv2 * jj + v1\n                        for kk in range(-1, 2):\n                            new_r12 = r12 + v12 + bv3 * kk\n                            dist = min(dist, np.linalg.norm(new_r12))\n            out[i, j] = dist\n    return out\n\n\ndef _distance_mic_t(",
   "                for ii in range(0, 2):\n                    v1 = bv1 * ii\n                    for jj in range(-1, 2):\n                        v12 = bv2 * jj + v1\n                        for kk in range(-1, 2):\n                            new_r12 = r12 + v12 + bv3 * kk\n                            dist = min(dist, np.linalg.norm(new_r12))\n            out[i, j] = dist\n    return out\n\n\ndef _distance_mic_t(", "C05-R4", "_distance_mic")
 V("C05", "twin-selection-strict", GEOC, "                        if (dist2 <= min_dist2) {\n                            min_dist2 = dist2;\n                            min_r = rc;\n                        }\n                    }\n                }\n            }\n\n            // Store results.\n\n            if (store_displacement) {\n                float temp[4];\n                min_r.store(temp);\n                *displacement_out = temp[0];\n                displacement_out++;\n                *displacement_out = temp[1];\n                displacement_out++;\n                *displacement_out = temp[2];\n                displacement_out++;\n            }\n            if (store_distance) {\n                *distance_out = sqrtf(min_dist2);\n                distance_out++;\n            }\n        }\n        // Reset box offset",
-  "                        if (dist2 <= min_dist2) {\n                            min_r = rc;\n                            min_dist2 = dist2;\n                        }\n                    }\n                }\n            }\n\n            // Store results.\n\n            if (store_displacement) {\n                float temp[4];\n                min_r.store(temp);\n                *displacement_out = temp[0];\n                displacement_out++;\n                *displacement_out = temp[1];\n                displacement_out++;\n                *displacement_out = temp[2];\n                displacement_out++;\n            }\n            if (store_distance) {\n                *distance_out = sqrtf(min_dist2);\n                distance_out++;\n            }\n        }\n        // Reset box offset", "C05-R3")
+  "                        if (dist2 <= min_dist2) {\n                            min_r = rc;\n                            min_dist2 = dist2;\n                        }\n                    }\n                }\n            }\n\n            // Store results.\n\n            if (store_displacement) {\n                float temp[4];\n                min_r.store(temp);\n                *displacement_out = temp[0];\n                displacement_out++;\n                *displacement_out = temp[1];\n                displacement_out++;\n                *displacement_out = temp[2];\n                displacement_out++;\n            }\n            if (store_distance) {\n                *distance_out = sqrtf(min_dist2);\n                distance_out++;\n            }\n        }\n        // Reset box offset", None)
 V("C05", "twin-dispatcher-local-rename", DPY, "            return _distance_mic(xyz, pairs, box.transpose(0, 2, 1), orthogonal)", "            res = _distance_mic(xyz, pairs, box.transpose(0, 2, 1), orthogonal)\n            return res", None)
 
 # ---------------------------------------------------------------- C07
@@ -1051,3 +1051,4 @@ V("C14", "twin-ks-terms-permuted-consistently", GEOC, '    fvec4 coupling(-2.788
 V("C14", "hydrogen-along-C-to-O", GEOC, "                fvec4 r_co = pc-po;", "                fvec4 r_co = po-pc;", "C14-R3")
 V("C14", "hydrogen-not-normalised", GEOC, "                fvec4 norm_r_co = r_co/sqrt(dot3(r_co, r_co));", "                fvec4 norm_r_co = r_co;", "C14-R3")
 V("C14", "twin-hydrogen-locals-renamed", GEOC, "                fvec4 r_co = pc-po;\n                fvec4 norm_r_co = r_co/sqrt(dot3(r_co, r_co));\n                fvec4 r_h = r_n+norm_r_co*0.1f;\n                r_h.store(hcoords);", "                fvec4 oc = pc-po;\n                fvec4 unit = oc/sqrt(dot3(oc, oc));\n                fvec4 hpos = unit*0.1f+r_n;\n                hpos.store(hcoords);", None)
+V("C05", "twin-triclinic-locals-renamed", GEOC, '            fvec4 r12 = pos2-pos1;\n            r12 -= box_vec3*round(r12[2]*recip_box_size[2]);\n            r12 -= box_vec2*round(r12[1]*recip_box_size[1]);\n            r12 -= box_vec1*round(r12[0]*recip_box_size[0]);\n\n            // We need to consider 27 possible periodic copies.\n\n            float min_dist2 = FLT_MAX;\n            fvec4 min_r = r12;\n            for (int x = -1; x < 2; x++) {\n                fvec4 ra = r12 + box_vec1*x;\n                for (int y = -1; y < 2; y++) {\n                    fvec4 rb = ra + box_vec2*y;\n                    for (int z = -1; z < 2; z++) {\n                        fvec4 rc = rb + box_vec3*z;\n                        float dist2 = dot3(rc, rc);\n                        if (dist2 <= min_dist2) {\n                            min_dist2 = dist2;\n                            min_r = rc;\n                        }\n                    }\n                }\n            }\n\n            // Store results.\n\n            if (store_displacement) {\n                float temp[4];\n                min_r.store(temp);\n                *displacement_out = temp[0];\n                displacement_out++;\n                *displacement_out = temp[1];\n                displacement_out++;\n                *displacement_out = temp[2];\n                displacement_out++;\n            }\n            if (store_distance) {\n                *distance_out = sqrtf(min_dist2);\n                distance_out++;\n            }\n        }\n\n        // Advance to the next frame.\n\n        xyz += n_atoms*3;\n        box_matrix += 9;', '            fvec4 dr = pos2-pos1;\n            dr -= box_vec3*round(dr[2]*recip_box_size[2]);\n            dr -= box_vec2*round(dr[1]*recip_box_size[1]);\n            dr -= box_vec1*round(dr[0]*recip_box_size[0]);\n\n            // We need to consider 27 possible periodic copies.\n\n            float best2 = FLT_MAX;\n            fvec4 best = dr;\n            for (int x = -1; x < 2; x++) {\n                for (int y = -1; y < 2; y++) {\n                    for (int z = -1; z < 2; z++) {\n                        fvec4 rc = dr + box_vec3*z + box_vec2*y + box_vec1*x;\n                        float len2 = dot3(rc, rc);\n                        if (len2 <= best2) {\n                            best = rc;\n                            best2 = len2;\n                        }\n                    }\n                }\n            }\n\n            // Store results.\n\n            if (store_displacement) {\n                float temp[4];\n                best.store(temp);\n                *displacement_out = temp[0];\n                displacement_out++;\n                *displacement_out = temp[1];\n                displacement_out++;\n                *displacement_out = temp[2];\n                displacement_out++;\n            }\n            if (store_distance) {\n                *distance_out = sqrtf(best2);\n                distance_out++;\n            }\n        }\n\n        // Advance to the next frame.\n\n        xyz += n_atoms*3;\n        box_matrix += 9;', None)
